@@ -59,7 +59,13 @@ pub trait RollingFinal<T>: Vec1View<T> {
             window,
             |arr| {
                 let acc_func = |acc: f64, (v, c): (T, f64)| acc + v.cast() * c;
-                arr.titer().zip(coef.titer()).fold(0., acc_func).cast()
+                // the last coefficient belongs to the most recent element: a window that is
+                // still shorter than `window` uses the tail of the coefficients
+                let skip = coef.len().saturating_sub(arr.len());
+                arr.titer()
+                    .zip(coef.titer().skip(skip))
+                    .fold(0., acc_func)
+                    .cast()
             },
             out,
         )
